@@ -82,7 +82,7 @@ def check(ctx):
     # role consistency of the reported rows: (destination, stop time) from the arrival event, (origin, start time) from the departure
     seen_nodes = set()
     for e in it.events:
-        if e['tag'] != 'append' or e['where'] is None or G2J not in e['ctx'] or id(e['node']) in seen_nodes:
+        if e['tag'] not in ('append', 'yield') or e['where'] is None or G2J not in e['ctx'] or id(e['node']) in seen_nodes:
             continue
         v = e['value']
         if v is None or v.ty != 'Row' or not v.cols:
@@ -98,12 +98,12 @@ def check(ctx):
                 'the reported row takes its origin from one event but its start time from another'))
     # ---- R3
     n = 0
-    for e in uniq_events(it, {'append'}, inside):
+    for e in uniq_events(it, {'append', 'yield'}, inside):
         v = e['value']
         if v is None or v.ty != 'Row' or not v.cols:
             continue
         n += 1
-        all_ev = [x for x in it.events if x['tag'] == 'append' and x['node'] is e['node']]
+        all_ev = [x for x in it.events if x['tag'] in ('append', 'yield') and x['node'] is e['node']]
         bad = unknown = False
         for x in all_ev:
             c = x['value'].cols.get('start site') if x['value'].cols else None
@@ -198,10 +198,10 @@ def check_scanner_state(ctx, rule):
             if d[0] != 'test' or not any(x is d[1] for x in ast.walk(loop)):
                 continue
             v = it.value_of(d[1])
-            if v is None or v.cmp is None:
+            if v is None or (v.cmp is None and not v.chain_vals):
                 continue
-            o_, l_, r_ = v.cmp[:3]
-            for a_, b_ in ((l_, r_), (r_, l_)):
+            links = [(v.cmp[1], v.cmp[2])] if v.cmp is not None else list(zip(v.chain_vals, v.chain_vals[1:]))
+            for a_, b_ in [p_ for l_, r_ in links for p_ in ((l_, r_), (r_, l_))]:
                 if a_ is not None and a_.col == 'start site' and b_ is not None and (b_.nosite_marker or b_.gname == 'gemdat.transitions.NOSITE'
                                                                                      or (has_const(b_) and cval(b_) == -1)):
                     stage.append(k)
@@ -249,8 +249,8 @@ def check_residence(ctx, it, fi):
             if neg:
                 lower_bound = not lower_bound if isinstance(op, (ast.GtE, ast.Gt, ast.LtE, ast.Lt)) else lower_bound
             branch = (st.body if not neg else st.orelse) if st is not None else []
-            admits = st is not None and any(isinstance(w, ast.Call) and isinstance(w.func, ast.Attribute) and w.func.attr in ('append', 'extend')
-                                            for b in branch for w in ast.walk(b))
+            admits = st is not None and any((isinstance(w, ast.Call) and isinstance(w.func, ast.Attribute) and w.func.attr in ('append', 'extend'))
+                                            or isinstance(w, (ast.Yield, ast.YieldFrom)) for b in branch for w in ast.walk(b))
             if lower_bound and elapsed and admits:
                 ctx.ob('R4', f, par, True, 'elapsed time >= minimal residence admits the pending jump')
             elif elapsed and admits and not lower_bound:
